@@ -17,7 +17,7 @@ def run(ctx):
     ctx.assumptions += ["V1: handlers are deterministic functions of (LP, state, event) touching only rollbackable memory and the library RNG"]
     runlib.lean_part(ctx, "RootSim.Props.C05LP", THEOREMS)
     agg = runlib.run_matrix(ctx, "par re-execution (rollback index, restored checkpoint, coast-forward entries, state digest after every rollback)",
-                            36, 600, oracle_keys=("s_rb_mismatch",), threads=(1, 2, 3, 4), ckpts=(1, 2, 3, 7, 0))
+                            36, 300, oracle_keys=("s_rb_mismatch",), threads=(1, 2, 3, 4), ckpts=(1, 2, 3, 7, 0))
     import random
     runlib.lib_matrix(ctx, random.Random(ctx.seed * 17 + 3))
     if agg:
